@@ -27,7 +27,20 @@ def _row_from_own_cells(prog, c):
     mp = [t for b, t in c.calls() if (t.get("callee") or "").endswith("Iterator::map")]
     inner = [cc for bb, cc in closure_sites(prog, c)]
     tv = any(cname(prog, t) == "msi::internal::value::ValueRef::to_value" for cc in inner for b, t in cc.calls())
-    return len(ev) == 1 and len(rn) == 1 and len(mp) == 1 and tv and any(re.search(r"p2", x) for x in it) and S.val(ev[0]["args"][1]).startswith("&call@")
+    own = any(re.search(r"\bp[23]\b", x) for x in it)
+    if not own:
+        # the row is captured from the enclosing per-row closure (`rows.iter().map(|row| cond.is_none_or(|e| .. row.iter() ..))`)
+        from ..lib import closure_caps
+        top = c.owner
+        for g in ([top] + list(top.closures)) if top is not None else []:
+            caps = closure_caps(prog, g).get(c.id)
+            if caps is None or g.kind != "Closure":
+                continue
+            for x in it:
+                m = re.search(r"\bp1\.(\d+)\b", x)
+                if m and int(m.group(1)) < len(caps) and re.fullmatch(r"[&*]*p[23]", caps[int(m.group(1))]):
+                    own = True
+    return len(ev) == 1 and len(rn) == 1 and len(mp) == 1 and tv and own and S.val(ev[0]["args"][1]).startswith("&call@")
 
 
 def run(ctx):
@@ -86,7 +99,12 @@ def run(ctx):
     if ok:
         c = cl[0]
         tb = [(b, t) for b, t in c.calls() if cname(prog, t) == TOBOOL]
-        ok = len(tb) == 1 and tb[0][1]["dest"]["l"] == 0 and any(s["lhs"]["l"] == 0 and s["rhs"]["rv"] == "use" and s["rhs"]["ops"][0].get("int") == 1 for bl in c.blocks for s in bl["stmts"])
+        unit_cl = [g for g in prog.unit(f) if g is not f]
+        # without a condition every row is selected: a constant `true` result beside the evaluation (in this closure or in the one that calls it),
+        # or the evaluation wrapped in Option::is_none_or
+        dflt = any(s["lhs"]["l"] == 0 and s["rhs"]["rv"] == "use" and s["rhs"]["ops"][0].get("int") == 1 for g in unit_cl for bl in g.blocks for s in bl["stmts"]) or \
+            any(cname(prog, t).endswith("Option::<T>::is_none_or") for g in [f] + unit_cl for b, t in g.calls())
+        ok = len(tb) == 1 and tb[0][1]["dest"]["l"] == 0 and dflt
         # the selection vector drives the apply loop: create() sits under a fact on an element of the zipped `selected`
         cr = [(b, t) for b, t in f.calls() if cname(prog, t) == "msi::internal::value::ValueRef::create"]
         if ok and cr:
